@@ -91,11 +91,15 @@ fn zone_workload(l: &mut Local, rng: &mut Rng, ctx: &Ctx) {
     };
     let (t1, t2) = (b1.tz.as_ref(), b2.tz.as_ref());
     let zm2 = z2.model();
+    let zm1 = z1.model();
     let mut n = 0;
     for _ in 0..ctx.inner(20) {
         let u = match rng.below(3) {
             0 => rng.range(-4_000_000_000, 8_000_000_000),
-            1 => z1.transitions.first().map(|t| t.0.saturating_add(rng.range(-5, 5))).unwrap_or(0).clamp(cal::min_unix() / 2, cal::max_unix() / 2),
+            1 => {
+                let k = rng.below(z1.transitions.len().max(1) as u64) as usize;
+                z1.transitions.get(k).map(|t| t.0.saturating_add(rng.range(-3, 3))).unwrap_or(0).clamp(cal::min_unix() / 2, cal::max_unix() / 2)
+            }
             _ => rng.range(cal::min_unix() / 2, cal::max_unix() / 2),
         };
         let ns = rng.below(1_000_000_000) as u32;
@@ -104,6 +108,26 @@ fn zone_workload(l: &mut Local, rng: &mut Rng, ctx: &Ctx) {
             Err(_) => continue,
         };
         n += 1;
+        // the same value through the total-nanoseconds constructor taking the zone: same instant, same fields,
+        // and the type the zone shows at that instant
+        let total = u as i128 * 1_000_000_000 + ns as i128;
+        match facade::dt_from_total_ns(total, t1) {
+            Ok(b) => {
+                n += 1;
+                if !crate::mon::c05::same_dt(&a, &b) {
+                    l.violation("zoned date-time: from_total_nanoseconds(.., zone) differs from from_timespec(.., zone) for the same instant", format!("total {} on {}", total, z1.describe()), facade::fmt_dt(&a), facade::fmt_dt(&b));
+                }
+                if total < 0 && ns != 0 {
+                    l.class("zone_constructors_agree_on_negative_fractional_instants");
+                }
+            }
+            Err(e) => l.violation("zoned date-time: from_total_nanoseconds(.., zone) refuses an instant from_timespec(.., zone) accepts", format!("total {} on {}", total, z1.describe()), facade::fmt_dt(&a), format!("Err({:?})", e)),
+        }
+        if let Fwd::Type(t) = zm1.forward(u) {
+            if !t.same_as(a.local_time_type()) {
+                l.violation("zoned date-time: the value does not carry the local time type of its zone at its instant", format!("DateTime::from_timespec({}, {}) on {}", u, ns, z1.describe()), format!("{}", t), facade::fmt_dt(&a));
+            }
+        }
         // projection: same instant, same ns, type of the target zone at that instant
         match facade::project(&a, t2) {
             Ok(p) => {
@@ -182,6 +206,7 @@ pub fn run(ctx: &Ctx) -> Report {
         "second_60_vs_projection",
         "second_60_vs_neighbour_nanosecond",
         "second_60_search_entry_compared",
+        "zone_constructors_agree_on_negative_fractional_instants",
     ];
     if let Err(e) = crate::mon::c03::self_tests() {
         rep.inconclusive.push(format!("model self-test failed: {}", e));
